@@ -96,12 +96,15 @@ class BaseSection(base.Sectionable):
 
         # this may fire a change event, so have the section setup then
         self.type = type
-        self.parent = parent
 
         # This might lead to a validation warning, since properties are set
         # at a later point in time.
         self.sec_cardinality = sec_cardinality
         self.prop_cardinality = prop_cardinality
+
+        # Attach to the parent last: an invalid argument must not leave
+        # a half set up Section behind in the parent.
+        self.parent = parent
 
         for err in validation.Validation(self).errors:
             if err.is_error:
